@@ -278,11 +278,14 @@ CHECKS = {
 # later extensions of generators and oracles (kept apart so that each addition reads as one sentence)
 RULE_ADDENDA = {
     "C01": "Every value is also built the way callers build it - New<Type>(Set<Field>(...)...) for the header and the seven bodies - and must encode (bytes and error) exactly like the struct literal.",
+    "C02": "Over-long argument lists also come in a sparse form: 256+ arguments, each as short as the type allows.",
+    "C09": "Half of the authorization sessions name one of the user's own configured services (own or through a group) as a session authorization, and are focused on the user with the most services, so that several sessions of one user ask for different services in either order.",
+    "C14": "Policy requests also carry arguments that are no attribute-value pairs (no separator, only separators); every log call additionally goes through the reference logger of cmds/server/log.",
     "C03": "Client-write cases also go through Client.SendOnly and use Packet literals whose Header.Length is stale (0, 5, n+20, 65536): what is written must follow the body.",
     "C04": "Every input is also decoded into reused receivers (a fully populated value, and the decode of the valid packet the input was derived from): refusal must not depend on the receiver and every decoded field must come from this input.",
     "C05": "After an injected deadline expiry in the middle of a packet the connection must be closed; one that goes back to reading is the verdict stall-not-an-error.",
     "C11": "Command arguments include values that merely end in the <cr>/<CR> line-ending marker.",
-    "C12": "One request in three is sent on the session id of the request before it with the next client sequence number (the updates of a task), naming any user. One case in four also registers the syslog accounter on a unixgram socket owned by the harness (users with a SYSLOG accounter become accountable; the record must be queued on the socket when the reply arrives, exactly once, and decode to the request).",
+    "C12": "One request in three is sent on the session id of the request before it with the next client sequence number (the updates of a task), naming any user. The text pool includes literal escape-like sequences (backslash-u003c, backslash-u0026, backslash-n, double backslash). One case in four also registers the syslog accounter on a unixgram socket owned by the harness (users with a SYSLOG accounter become accountable; the record must be queued on the socket when the reply arrives, exactly once, and decode to the request).",
     "C18": "Every log call is also passed to the reference logger of cmds/server/log at a drawn level (10/20/30/31/100) writing to a buffer, which is searched for the tokens as well.",
     "C16": "The real-watcher sub-test also replaces the file atomically (rename over the path) and then edits it in place; if nothing is published the verdict is taken from the process' inotify watch list (/proc/self/fdinfo), not from the clock.",
     "C17": "One scripted packet in three makes its handler register a continuation, so that a session is still open when the connection ends.",
